@@ -164,3 +164,50 @@ impl Rng {
     pub fn below(&mut self, n: usize) -> usize { (self.next() % (n as u64)) as usize }
     pub fn chance(&mut self, num: u64, den: u64) -> bool { self.next() % den < num }
 }
+
+/// Sugared rendering: pk(), pkh(), t: l: u: and_n() — same AST, different text.
+pub fn ast_to_sugar(u: &Universe, a: &Value, ctx: &str) -> String {
+    fn parts(u: &Universe, a: &Value, ctx: &str) -> (String, String) {
+        // returns (wrapper prefix, body)
+        let f = a["f"].as_str().unwrap();
+        let xs: Vec<&Value> = a["xs"].as_array().map(|v| v.iter().collect()).unwrap_or_default();
+        let isleaf = |x: &Value, name: &str| x["f"].as_str() == Some(name);
+        match f {
+            "c" if isleaf(xs[0], "pk_k") => (String::new(), format!("pk({})", u.key_str(xs[0]["n"].as_u64().unwrap() as usize, ctx))),
+            "c" if isleaf(xs[0], "pk_h") => (String::new(), format!("pkh({})", u.key_str(xs[0]["n"].as_u64().unwrap() as usize, ctx))),
+            "a" | "s" | "c" | "d" | "v" | "j" | "n" => {
+                let (w, b) = parts(u, xs[0], ctx);
+                (format!("{}{}", f, w), b)
+            }
+            "and_v" if isleaf(xs[1], "1") => {
+                let (w, b) = parts(u, xs[0], ctx);
+                (format!("t{}", w), b)
+            }
+            "or_i" if isleaf(xs[0], "0") => {
+                let (w, b) = parts(u, xs[1], ctx);
+                (format!("l{}", w), b)
+            }
+            "or_i" if isleaf(xs[1], "0") => {
+                let (w, b) = parts(u, xs[0], ctx);
+                (format!("u{}", w), b)
+            }
+            "andor" if isleaf(xs[2], "0") => (String::new(), format!("and_n({},{})", ast_to_sugar(u, xs[0], ctx), ast_to_sugar(u, xs[1], ctx))),
+            "thresh" => {
+                let subs: Vec<String> = xs.iter().map(|x| ast_to_sugar(u, x, ctx)).collect();
+                (String::new(), format!("thresh({},{})", a["n"], subs.join(",")))
+            }
+            "0" | "1" | "pk_k" | "pk_h" | "older" | "after" | "sha256" | "hash256" | "ripemd160" | "hash160" | "multi" | "multi_a"
+            | "sortedmulti" | "sortedmulti_a" => (String::new(), ast_to_string(u, a, ctx)),
+            _ => {
+                let subs: Vec<String> = xs.iter().map(|x| ast_to_sugar(u, x, ctx)).collect();
+                (String::new(), format!("{}({})", f, subs.join(",")))
+            }
+        }
+    }
+    let (w, b) = parts(u, a, ctx);
+    if w.is_empty() {
+        b
+    } else {
+        format!("{}:{}", w, b)
+    }
+}
